@@ -14,9 +14,10 @@ ASSUMPTIONS = ["inputs are ASCII", "BLAKE3 has no collisions among the inputs ex
                "'some strand of one equals, up to rotation, some strand of the other'"]
 PARTIAL = ["all clauses are proved at full strength for hashSpec = the Hash model whose rotation step is the arg-min least rotation "
            "(Props/C05: hash_inj, hash_inj_general, hash_same_molecule, hash_form, hex_len, reject_type, reject_letter, reject_ds_protein - the "
-           "rejections for every rotation function). For the circular cases, identifying the code's rotation step (Booth-loop model) with the "
-           "arg-min is C12's booth_least (Props/C12Booth.lean, other worker); until then hash = hashSpec rests on the correspondence. "
-           "Remove this entry when booth_least is proved."]
+           "rejections for every rotation function, hence also for the Booth-loop model). For the circular cases, identifying the code's rotation "
+           "step (Booth-loop model) with the arg-min is C12's booth_least, which lives in the other worker's module Props/C12Booth.lean. The one-line "
+           "composition 'hash = hashSpec' (C04.hashWith_congr applied to booth_least) is deliberately not instantiated here; remove this entry once "
+           "that corollary is added."]
 TIMEOUT_MS = 120000
 
 PROT = "ACDEFGHIKLMNPQRSTVWYUO*BXZ"
